@@ -24,6 +24,10 @@ func vCachePool() []vOp {
 		{q: `{ me { id ...F @skip(if: true) } } fragment F on Human { name phone }`},
 		{q: `{ me { id ...F @skip(if: false) } } fragment F on Human { name phone }`},
 		{q: `{ me { id ...F } } fragment F on Human { name phone }`},
+		// one spread name, different fragment bodies; one selection, different variable declarations
+		{q: `{ me { ...F } } fragment F on Human { name }`},
+		{q: `{ me { ...F } } fragment F on Human { phone }`},
+		{q: `query($c: Int = 5) { me { phone(cc: $c) } }`},
 		{q: `query($c: Int) { me { phone(cc: $c) } }`, vars: func() map[string]interface{} {
 			return map[string]interface{}{"c": verifInt("var_c", 0, 9)}
 		}},
